@@ -197,9 +197,19 @@ static void mg_case(std::string flavour, MProg prog, std::vector<int> topo,
       [&](int item, auto& ctx) {
         int att = next_attempt(item);
         vf_log(K_ATTEMPT, item, att);
-        w->acquire_all(prog.items[item]);
-        vf_log(K_COMMIT, item, att);
-        w->apply(prog.items[item], item);
+        if (prog.items[item].size() == 1) {
+          // a single graph call is cautious BY ITSELF (the method acquires
+          // what it needs before it writes -- that is the library's promise
+          // under the default flags): no pre-acquisition, so a conflict can
+          // strike INSIDE the method; the iteration holds its locks until it
+          // returns, so the completion order is a valid serial order
+          w->apply(prog.items[item], item);
+          vf_log(K_COMMIT, item, att);
+        } else {
+          w->acquire_all(prog.items[item]);
+          vf_log(K_COMMIT, item, att);
+          w->apply(prog.items[item], item);
+        }
       },
       galois::no_pushes(),
       galois::wl<galois::worklists::PerSocketChunkFIFO<1>>(),
@@ -244,6 +254,15 @@ static std::vector<MProg> programs() {
   v.push_back({"remove-node", {{{ADD_EDGE, 0, 1, 10}, {ADD_EDGE, 2, 1, 11}},
                                {{REMOVE_NODE, 1, 1, 0}},
                                {{ADD_EDGE, 1, 2, 12}, {ADD_EDGE, 0, 2, 13}}}});
+  // single-call iterations: conflicts strike inside the graph method
+  v.push_back({"single-calls", {{{ADD_EDGE, 0, 1, 10}},
+                                {{ADD_EDGE, 1, 0, 20}},
+                                {{ADD_EDGE, 1, 2, 30}},
+                                {{ADD_EDGE, 2, 0, 40}}}});
+  v.push_back({"single-remove", {{{ADD_EDGE, 0, 1, 10}, {ADD_EDGE, 2, 1, 11}},
+                                 {{REMOVE_EDGE, 0, 1, 0}},
+                                 {{ADD_EDGE, 1, 2, 12}},
+                                 {{UPDATE_DATA, 2, 1, 0}}}});
   v.push_back({"grow", {{{ADD_NODE, 3, 3, 0}, {ADD_EDGE, 3, 0, 5}},
                         {{ADD_EDGE, 0, 3, 6}, {UPDATE_DATA, 0, 3, 0}},
                         {{REMOVE_NODE, 0, 0, 0}}}});
@@ -272,7 +291,7 @@ int main(int argc, char** argv) {
   };
   for (size_t pi = 0; pi < progs.size(); ++pi) {
     MProg p = progs[pi];
-    int q   = pi < 2 ? 1 : -1;
+    int q   = pi < 3 ? 1 : -1;
 #define FL(NAME, G, U, IO, S)                                                  \
   add(NAME, [=]() { mg_case<G, U, IO, S>(NAME, p, {2}, 2); }, p.name, "[2]",   \
       2, (std::string(NAME) == "undirected" || q == 1) ? 1 : -1, 2, 4);        \
